@@ -8,7 +8,8 @@ timer state).  Spec predicates: `HioModel/Timer/Spec.lean` (`realElapsed`, `neve
 
 Every theorem is for every linearly ordered commutative ring `τ` of time values (`Int`, `Rat`, `Real`, …) and for EVERY clock: `σ`, `clk : Clock τ σ` (an arbitrary state machine answering `time.time()` and reacting
 to `time.sleep(d)`: steady, stalled, stepped backwards, overshooting, running out), every fuel, every number of cycles,
-every pattern of extra clock readings by the doers.  Elapsed real time between readings is the sum of the non-negative
+every pattern of extra clock readings by the doers and of operations of the doers on the scheduler in mid-cycle
+(`doist.extend`, `doist.remove`: `DScript` events `some code`, which never touch the pacing timer).  Elapsed real time between readings is the sum of the non-negative
 increments (a backward step is a clock adjustment; forward jumps are indistinguishable from elapsed time and excluded
 by the property).
 
@@ -28,7 +29,7 @@ theorem doist_timer_is_retro : Gen.monoRetroDefault = true := rfl
 /-- C07 never early, from ANY timer state (whatever happened between construction and `do()`): in the log of the run,
 whenever `recur()` number `k ≥ 1` begins, the elapsed real time over all clock readings since the run's first reading
 (the one `timer.start` takes) is at least `k * tock`. -/
-theorem never_early_any_history {σ} (clk : Clock τ σ) (fuel : Nat) (m : Mono τ) (c : σ) (tock : τ) (n : Nat) (xs : List Nat)
+theorem never_early_any_history {σ} (clk : Clock τ σ) (fuel : Nat) (m : Mono τ) (c : σ) (tock : τ) (n : Nat) (xs : List DScript)
     (hm : m.retro = true) (r0 : τ) (pre post : List (Ev τ)) (k : Nat)
     (hlog : (doRun clk fuel m c tock n xs).1 = .t r0 :: (pre ++ .c k :: post)) (hk : 1 ≤ k) :
     (k : τ) * tock ≤ realElapsed r0 (readingsOf pre) := by
@@ -39,7 +40,7 @@ theorem never_early_any_history {σ} (clk : Clock τ σ) (fuel : Nat) (m : Mono 
 /-- C07 lossless, from ANY timer state: every `time.sleep(d)` requested while waiting after cycle `k` asks for exactly the
 time left to the deadline `(k+1) * tock` counted from the start of the run in the monotone coordinates of the timer's own
 readings — lateness of earlier cycles (overshoot, stalls, steps) never moves a later deadline. -/
-theorem lossless_any_history {σ} (clk : Clock τ σ) (fuel : Nat) (m : Mono τ) (c : σ) (tock : τ) (n : Nat) (xs : List Nat)
+theorem lossless_any_history {σ} (clk : Clock τ σ) (fuel : Nat) (m : Mono τ) (c : σ) (tock : τ) (n : Nat) (xs : List DScript)
     (hm : m.retro = true) (r0 : τ) (pre post : List (Ev τ)) (d : τ)
     (hlog : (doRun clk fuel m c tock n xs).1 = .t r0 :: (pre ++ .s d :: post)) :
     d = max 0 (((cycleOf 0 pre : Nat) : τ) * tock + tock - realElapsed r0 (timerReadingsOf pre)) := by
@@ -49,14 +50,14 @@ theorem lossless_any_history {σ} (clk : Clock τ σ) (fuel : Nat) (m : Mono τ)
 
 /-- …and a cycle begins only once the timer itself has seen its deadline: `k * tock ≤` elapsed real time over the timer's
 own readings (scanning form, together with the sleep equation) -/
-theorem lossless_scan_any_history {σ} (clk : Clock τ σ) (fuel : Nat) (m : Mono τ) (c : σ) (tock : τ) (n : Nat) (xs : List Nat)
+theorem lossless_scan_any_history {σ} (clk : Clock τ σ) (fuel : Nat) (m : Mono τ) (c : σ) (tock : τ) (n : Nat) (xs : List DScript)
     (hm : m.retro = true) : Lossless tock (doRun clk fuel m c tock n xs).1 :=
   doRun_lossless clk fuel m c tock n xs hm
 
 /-- a run does not depend on what the timer went through before — earlier runs of the same scheduler, finished, interrupted
 by Ctrl-C or failed, peeks, clock steps: `timer.start(duration=self.tock)` at the first reading of the run forgets it all.
 (So the second run of a re-used Doist is the run of a fresh one; the driver models it that way.) -/
-theorem doRun_forgets_timer_history {σ} (clk : Clock τ σ) (fuel : Nat) (m m' : Mono τ) (c : σ) (tock : τ) (n : Nat) (xs : List Nat)
+theorem doRun_forgets_timer_history {σ} (clk : Clock τ σ) (fuel : Nat) (m m' : Mono τ) (c : σ) (tock : τ) (n : Nat) (xs : List DScript)
     (h : m.retro = m'.retro) : doRun clk fuel m c tock n xs = doRun clk fuel m' c tock n xs := by
   unfold doRun
   cases clk.read c with
@@ -69,7 +70,7 @@ theorem doRun_forgets_timer_history {σ} (clk : Clock τ σ) (fuel : Nat) (m m' 
 /-- the tock the run is paced with is the tock the scheduler has when `do()` is called: the last value assigned to
 `doist.tock` after construction, else the constructor argument, else `Tymist.Tock` -/
 theorem run_tock_is_tock_at_start {σ} (dflt : τ) (clk : Clock τ σ) (fuel : Nat) (c : σ) (tock0 : Option τ) (pre : List (PreOp τ)) (n : Nat)
-    (xs : List Nat) (t : τ) (h : (paceRun dflt clk fuel c tock0 pre n xs).tock = some t) :
+    (xs : List DScript) (t : τ) (h : (paceRun dflt clk fuel c tock0 pre n xs).tock = some t) :
     t = tockAtRun (tockOr dflt tock0) pre := by
   rcases paceRun_cases dflt clk fuel c tock0 pre n xs doist_timer_is_retro with ⟨_, h0⟩ | ⟨_, _, _, h1, _⟩
   · rw [h0] at h; cases h
@@ -77,7 +78,7 @@ theorem run_tock_is_tock_at_start {σ} (dflt : τ) (clk : Clock τ σ) (fuel : N
 
 /-- C07 never early for a scheduler as built by `Doist(real=True, tock=tock0)` and used in any way before the run
 (timer peeked at, tock reassigned, clock stepped in between): unconditional. -/
-theorem never_early {σ} (dflt : τ) (clk : Clock τ σ) (fuel : Nat) (c : σ) (tock0 : Option τ) (ops : List (PreOp τ)) (n : Nat) (xs : List Nat)
+theorem never_early {σ} (dflt : τ) (clk : Clock τ σ) (fuel : Nat) (c : σ) (tock0 : Option τ) (ops : List (PreOp τ)) (n : Nat) (xs : List DScript)
     (r0 : τ) (pre post : List (Ev τ)) (k : Nat)
     (hlog : (paceRun dflt clk fuel c tock0 ops n xs).run = .t r0 :: (pre ++ .c k :: post)) (hk : 1 ≤ k) :
     (k : τ) * tockAtRun (tockOr dflt tock0) ops ≤ realElapsed r0 (readingsOf pre) := by
@@ -87,7 +88,7 @@ theorem never_early {σ} (dflt : τ) (clk : Clock τ σ) (fuel : Nat) (c : σ) (
     exact never_early_any_history clk fuel m c' _ n xs hm r0 pre post k hlog hk
 
 /-- C07 lossless for a scheduler as built by `Doist(real=True, tock=tock0)`: unconditional. -/
-theorem lossless {σ} (dflt : τ) (clk : Clock τ σ) (fuel : Nat) (c : σ) (tock0 : Option τ) (ops : List (PreOp τ)) (n : Nat) (xs : List Nat)
+theorem lossless {σ} (dflt : τ) (clk : Clock τ σ) (fuel : Nat) (c : σ) (tock0 : Option τ) (ops : List (PreOp τ)) (n : Nat) (xs : List DScript)
     (r0 : τ) (pre post : List (Ev τ)) (d : τ)
     (hlog : (paceRun dflt clk fuel c tock0 ops n xs).run = .t r0 :: (pre ++ .s d :: post)) :
     d = max 0 (((cycleOf 0 pre : Nat) : τ) * tockAtRun (tockOr dflt tock0) ops + tockAtRun (tockOr dflt tock0) ops
@@ -98,13 +99,13 @@ theorem lossless {σ} (dflt : τ) (clk : Clock τ σ) (fuel : Nat) (c : σ) (toc
     exact lossless_any_history clk fuel m c' _ n xs hm r0 pre post d hlog
 
 /-- scanning forms (exactly what the Python oracle evaluates on the real log) -/
-theorem never_early_scan {σ} (dflt : τ) (clk : Clock τ σ) (fuel : Nat) (c : σ) (tock0 : Option τ) (ops : List (PreOp τ)) (n : Nat) (xs : List Nat) :
+theorem never_early_scan {σ} (dflt : τ) (clk : Clock τ σ) (fuel : Nat) (c : σ) (tock0 : Option τ) (ops : List (PreOp τ)) (n : Nat) (xs : List DScript) :
     NeverEarly (tockAtRun (tockOr dflt tock0) ops) (paceRun dflt clk fuel c tock0 ops n xs).run := by
   rcases paceRun_cases dflt clk fuel c tock0 ops n xs doist_timer_is_retro with ⟨h0, _⟩ | ⟨m, c', hm, _, hrun⟩
   · rw [h0]; trivial
   · rw [hrun]; exact doRun_neverEarly clk fuel m c' _ n xs hm
 
-theorem lossless_scan {σ} (dflt : τ) (clk : Clock τ σ) (fuel : Nat) (c : σ) (tock0 : Option τ) (ops : List (PreOp τ)) (n : Nat) (xs : List Nat) :
+theorem lossless_scan {σ} (dflt : τ) (clk : Clock τ σ) (fuel : Nat) (c : σ) (tock0 : Option τ) (ops : List (PreOp τ)) (n : Nat) (xs : List DScript) :
     Lossless (tockAtRun (tockOr dflt tock0) ops) (paceRun dflt clk fuel c tock0 ops n xs).run := by
   rcases paceRun_cases dflt clk fuel c tock0 ops n xs doist_timer_is_retro with ⟨h0, _⟩ | ⟨m, c', hm, _, hrun⟩
   · rw [h0]; trivial
@@ -116,23 +117,23 @@ compares; Mathlib's order/ring instances on `Int` unfold to the core ones the dr
 example (a b : Int) : @max Int Int.instMax a b = @max Int LinearOrder.toMax a b := rfl
 
 theorem never_early_int {σ} (dflt : Int) (clk : Clock Int σ) (fuel : Nat) (c : σ) (tock0 : Option Int) (ops : List (PreOp Int))
-    (n : Nat) (xs : List Nat) (r0 : Int) (pre post : List (Ev Int)) (k : Nat)
+    (n : Nat) (xs : List DScript) (r0 : Int) (pre post : List (Ev Int)) (k : Nat)
     (hlog : (paceRun dflt clk fuel c tock0 ops n xs).run = .t r0 :: (pre ++ .c k :: post)) (hk : 1 ≤ k) :
     (k : Int) * tockAtRun (tockOr dflt tock0) ops ≤ realElapsed r0 (readingsOf pre) :=
   never_early dflt clk fuel c tock0 ops n xs r0 pre post k hlog hk
 
 theorem never_early_rat {σ} (dflt : Rat) (clk : Clock Rat σ) (fuel : Nat) (c : σ) (tock0 : Option Rat) (ops : List (PreOp Rat))
-    (n : Nat) (xs : List Nat) (r0 : Rat) (pre post : List (Ev Rat)) (k : Nat)
+    (n : Nat) (xs : List DScript) (r0 : Rat) (pre post : List (Ev Rat)) (k : Nat)
     (hlog : (paceRun dflt clk fuel c tock0 ops n xs).run = .t r0 :: (pre ++ .c k :: post)) (hk : 1 ≤ k) :
     (k : Rat) * tockAtRun (tockOr dflt tock0) ops ≤ realElapsed r0 (readingsOf pre) :=
   never_early dflt clk fuel c tock0 ops n xs r0 pre post k hlog hk
 
 theorem lossless_scan_int {σ} (dflt : Int) (clk : Clock Int σ) (fuel : Nat) (c : σ) (tock0 : Option Int) (ops : List (PreOp Int))
-    (n : Nat) (xs : List Nat) : Lossless (tockAtRun (tockOr dflt tock0) ops) (paceRun dflt clk fuel c tock0 ops n xs).run :=
+    (n : Nat) (xs : List DScript) : Lossless (tockAtRun (tockOr dflt tock0) ops) (paceRun dflt clk fuel c tock0 ops n xs).run :=
   lossless_scan dflt clk fuel c tock0 ops n xs
 
 theorem lossless_scan_rat {σ} (dflt : Rat) (clk : Clock Rat σ) (fuel : Nat) (c : σ) (tock0 : Option Rat) (ops : List (PreOp Rat))
-    (n : Nat) (xs : List Nat) : Lossless (tockAtRun (tockOr dflt tock0) ops) (paceRun dflt clk fuel c tock0 ops n xs).run :=
+    (n : Nat) (xs : List DScript) : Lossless (tockAtRun (tockOr dflt tock0) ops) (paceRun dflt clk fuel c tock0 ops n xs).run :=
   lossless_scan dflt clk fuel c tock0 ops n xs
 
 /-! Non-vacuity (tests, not claims): a concrete run on the harness's scripted clock — constructed at 0, clock stepped
